@@ -24,6 +24,15 @@ def run_configs(pid, tier, level, body, explanation, rule_text, not_decided=(), 
             body(ck, F, cfg)
         except Unanalysable as u:
             ck.fail("TERM", f"{cfg}:unanalysable", f"construct outside the recognised fragment: {u.msg}", u.where, kind="unanalysable")
+        except FX.AnchorMissing:
+            raise
+        except FX.ExtractError:
+            raise
+        except Exception as ex:  # engine limitation on an unexpected program shape: fail closed, readable
+            import traceback
+
+            tb = traceback.format_exc().strip().splitlines()
+            ck.fail("TERM", f"{cfg}:engine", f"analysis could not process the program ({type(ex).__name__}: {ex}); {tb[-3].strip() if len(tb) > 2 else ''}", kind="unanalysable")
         sigs.append([(o[0], o[1], o[2]) for o in ck.obligations[before:]])
     if len(sigs) > 1 and any(s != sigs[0] for s in sigs[1:]):
         ck.fail("CONFIG", "cross-config", "rule outcomes differ between feature configurations")
